@@ -191,6 +191,12 @@ def inject(schema, document):
         if isinstance(s, Field):
             # 5.3.1 fields exist
             yield "5.3.1", site + "|undefined", put(D, path, i, replace(s, name="zzUndefined"))
+            # names that merely look like meta fields are not defined either (only __typename, and __schema / __type at the query root)
+            if s.sel is None and not s.args:
+                yield "5.3.1", site + "|undefined-double-underscore", put(D, path, i, replace(s, name="__zzUndefined"))
+                yield "5.3.1", site + "|undefined-double-underscore", put(D, path, i, replace(s, name="__typenam"))
+                if scope != schema.query:
+                    yield "5.3.1", site + "|meta-field-outside-query-root", put(D, path, i, replace(s, name="__schema", sel=(Field("__typename"),)))
             if td is not None and td.kind == "INTERFACE":
                 for pn in schema.possible_types(scope):
                     for f in schema.type(pn).fields:
